@@ -94,7 +94,8 @@ ObsStep(e) ==
               [] e.op = "drop" -> [oLastW EXCEPT ![e.r] = "-"]
               [] OTHER -> oLastW
       W0 == IF e.op \in {"poll", "drop"} THEN [oWoken EXCEPT ![e.r] = FALSE] ELSE oWoken
-      ws == Wakes(e)
+      \* wakers taken under the lock and invoked after it (`taken`) count like in-lock wake-ups
+      ws == Wakes(e) \o (IF "taken" \in DOMAIN e THEN e.taken ELSE <<>>)
   IN
   /\ oA' = A /\ oClosed' = Cl /\ oLastW' = LW
   /\ oWant' = CASE e.op = "create" -> [oWant EXCEPT ![e.r] = e.id]
